@@ -240,7 +240,7 @@ fn progress_snapshot() -> (u64, u64, u64) {
     (
         cpu_ticks(),
         crate::dbx::PROGRESS.load(Ordering::Relaxed),
-        axmosdb::verif::io_tap::mutation_count() + axmosdb::verif::io_tap::read_count(),
+        axmosdb::verif::io_tap::mutation_count() + axmosdb::verif::io_tap::read_count() + axmosdb::verif::sched::hits().iter().sum::<u64>(),
     )
 }
 
@@ -268,12 +268,16 @@ fn watchdog_loop() {
         let c = progress_snapshot();
         let label = WD_LABEL.lock().unwrap().clone();
         let states = thread_states();
-        if a == b && b == c {
+        // no progress = no harness call returned, no file I/O and no yield point was passed for 6 s, and the process
+        // burnt less than 0.3 s of CPU in that window (idle pool workers wake up every 100 ms and cost a few ticks)
+        let stalled = a.1 == c.1 && a.2 == c.2 && c.0.saturating_sub(a.0) < 30;
+        let _ = b;
+        if stalled {
             let sig = ON_HANG_SIG.lock().unwrap().clone().unwrap_or_else(|| "hang".into());
             let check = with(|r| r.check.clone());
             violation(
                 &format!("{}:hang:{}", check, sig),
-                &format!("call did not return and the process made no progress for 6 s; threads: {}", states),
+                &format!("call did not return and the process made no progress for 6 s (no harness call returned, no I/O, no yield point passed, < 0.3 s CPU); threads: {}", states),
                 J::obj().with("label", label.as_str()),
             );
             count("hangs", 1);
